@@ -132,7 +132,8 @@ let parse_cfg () : ccfg =
   let prims = List.init np (fun _ -> match next () with
     | "SI" -> let v = next_int () in let e = parse_expr () in PSetInt (nat_of_int v, e)
     | "SS" -> let v = next_int () in let n = next_int () in let bs = List.init n (fun _ -> n_of_int (next_int ())) in PSetStr (nat_of_int v, bs)
-    | "DL" -> PDelete (nat_of_int (next_int ()))
+    | "DL" -> PDelete (nat_of_int (next_int ()), false)
+    | "DF" -> PDelete (nat_of_int (next_int ()), true)
     | "AP" -> PAppend (nat_of_int (next_int ()))
     | "AE" -> let v = next_int () in let e = parse_expr () in PAppendExpr (nat_of_int v, e)
     | "HK" -> PHook (nat_of_int (next_int ()))
@@ -146,7 +147,7 @@ let parse_cfg () : ccfg =
   let defaults = List.init ndf (fun _ -> match next () with
     | "SI" -> let v = next_int () in let e = parse_expr () in PSetInt (nat_of_int v, e)
     | "SS" -> let v = next_int () in let n = next_int () in let bs = List.init n (fun _ -> n_of_int (next_int ())) in PSetStr (nat_of_int v, bs)
-    | "DL" -> PDelete (nat_of_int (next_int ()))
+    | "DL" -> PDelete (nat_of_int (next_int ()), false)
     | s -> failwith ("bad default " ^ s)) in
   { c_decls = decls; c_prims = prims; c_tests = tests; c_safe_idx = safe; c_defaults = defaults }
 
